@@ -382,6 +382,37 @@ struct Scn {
         log("ret t" + std::to_string(tid) + " " + (r ? "1" : "0"));
     }
 
+    // `r <kind> [<v>] aw`: the resolver is a coroutine that resolves and awaits the returned suspend point in one expression,
+    // `bool won = co_await promise(args...)`.  Claim, set, the exchange on the slot and the walk are those of every other call;
+    // what differs is how the collected coroutine waiters are resumed: suspend_point::await_suspend transfers to the LAST handle,
+    // queues the others (in order) and then the awaiting coroutine itself, which learns the result after all of them have run.
+    async<void> resolver_coro(std::vector<std::string> a, int tid) {
+        bool r = false;
+        if (a[1] == "value") {
+            int v = atoi(a[2].c_str());
+            if constexpr (std::is_void_v<T>) r = co_await (*prom)();
+            else if constexpr (std::is_reference_v<T>) { ref_cells[tid] = v; r = co_await (*prom)(ref_cells[tid]); }
+            else if constexpr (std::is_same_v<T, vec>) r = co_await (*prom)(2, v);   // in place: two copies of v
+            else r = co_await (*prom)(P<T>::make(v));
+        } else if (a[1] == "exc") {
+            int code = atoi(a[2].c_str());
+            if (code % 2 == 0) r = co_await (*prom)(std::make_exception_ptr(test_exc(code)));
+            else { std::exception_ptr e = std::make_exception_ptr(test_exc(code)); r = co_await prom->set_exception(e); }
+        } else if (a[1] == "throwv") {
+            if constexpr (std::is_same_v<T, thrower>) {
+                bool threw = false;
+                try { r = co_await (*prom)(-1); }
+                catch (const std::runtime_error &) { threw = true; }
+                if (threw) { log("ret t" + std::to_string(tid) + " threw"); co_return; }
+            } else r = co_await (*prom)(drop);
+        } else if (a.size() > 2 && a[2] == "aw" && tid % 2 == 1) {
+            r = co_await prom->set_value(drop);
+        } else {
+            r = co_await (*prom)(drop);
+        }
+        log("ret t" + std::to_string(tid) + " " + (r ? "1" : "0"));
+    }
+
     // the static factories build an already resolved future: same observations as a future resolved through a promise
     void factories() {
         {
@@ -525,7 +556,8 @@ struct Scn {
         for (std::size_t i = 0; i < threads.size(); i++)
             if (threads[i][0] == "r") resolvers.push_back((int)i);
         for (auto &t : threads) {
-            if (t[0] == "r") S().spawn([this, t, tid] { resolver_body(t, tid); });
+            if (t[0] == "r" && t.back() == "aw") S().spawn([this, t, tid] { resolver_coro(t, tid).detach(); });
+            else if (t[0] == "r") S().spawn([this, t, tid] { resolver_body(t, tid); });
             else if (t[0] == "d") S().spawn([this, resolvers] {
                 // ~promise, sequenced after every invocation of the promise
                 auto pred = [resolvers] {
